@@ -264,24 +264,37 @@ def typed_eq(a, b):
 
 
 def module_globals_snapshot():
-    """Frozen snapshot of every mutable module-/class-level object."""
+    """Frozen snapshot of the library's module-/class-level tables and
+    defaults. Names are looked up tolerantly (a refactoring may rename or
+    drop a private table) and every container found as a class attribute
+    of an object-model class is included."""
     from pydiffx import sections, options
     from pydiffx.utils import text
     from pydiffx.dom import objects, writer as domw, reader as domr
-    snap = {
-        'BOMS': text.BOMS, 'NEWLINE_FORMATS': text.NEWLINE_FORMATS,
-        'VALID_SECTION_STATES': sections.VALID_SECTION_STATES,
-        'CONTENT': sections.CONTENT_SECTIONS, 'META': sections.META_SECTIONS,
-        'PRE': sections.PREAMBLE_SECTIONS,
-        'remap': domw.DiffXDOMWriter._remapped_options,
-    }
+    snap = {}
+    for mod, names in ((text, ('BOMS', 'NEWLINE_FORMATS')),
+                       (sections, ('VALID_SECTION_STATES', 'CONTENT_SECTIONS',
+                                   'META_SECTIONS', 'PREAMBLE_SECTIONS'))):
+        for n in names:
+            v = getattr(mod, n, None)
+            if isinstance(v, (dict, list, set, frozenset, tuple)):
+                snap['%s.%s' % (mod.__name__, n)] = v
     for cname in ('DiffType', 'LineEndings', 'MetaFormat',
                   'PreambleMimeType', 'SpecVersion'):
-        snap['opt.' + cname] = getattr(options, cname).VALID_VALUES
-    for cname in dir(objects):
-        c = getattr(objects, cname)
-        if isinstance(c, type) and issubclass(c, objects.BaseDiffXSection):
-            snap['cls.%s.default_options' % cname] = c.default_options
-            if hasattr(c, 'default_value'):
-                snap['cls.%s.default_value' % cname] = c.default_value
+        c = getattr(options, cname, None)
+        v = getattr(c, 'VALID_VALUES', None)
+        if isinstance(v, (dict, list, set, frozenset, tuple)):
+            snap['opt.' + cname] = v
+    for mod in (objects, domw, domr):
+        for cname in sorted(vars(mod)):
+            c = getattr(mod, cname)
+            if not isinstance(c, type) or \
+                    getattr(c, '__module__', '') != mod.__name__:
+                continue
+            for an, av in sorted(vars(c).items()):
+                if an.startswith('__'):
+                    continue
+                if isinstance(av, (dict, list, set)) and \
+                        'cache' not in an.lower():
+                    snap['cls.%s.%s' % (cname, an)] = av
     return freeze(snap)
